@@ -29,8 +29,15 @@
        (copies held)*(V+1)^2 fair rounds can start unconverged (ix): after that many fair rounds
        without a write every node has every other node's max version for every member, and by
        C02 (exactness up to the frontier) the same key-values.
-   Not covered by a theorem: worlds in which some node quarantines a member (there the statement
-   is false: KF-2 below) and liveness evaluations interleaved with the rounds.
+     - arbitrary schedules (Schedules.v): the same with NOISE allowed anywhere between the
+       handshakes — any step of the global relation except a join: deliveries of stale, duplicated
+       or reordered messages, SYNs never answered, heartbeats, clock advances, tombstone GC, local
+       writes, and liveness evaluations by nodes that quarantine nobody (they provably remove
+       nobody) — and quietness required only of the two nodes of a handshake at its start (x),
+       (xi).  "Fair" then reads: every ordered pair completes one handshake per schedule.
+   Not covered by a theorem: handshakes whose initiator or responder quarantines a member at that
+   moment (there the statement is false: KF-2 below), evaluations that remove a member, and a
+   handshake whose four steps are interleaved with other steps (it then counts as noise).
    The whole is exercised by
    the correspondence suite `conv` (fair rounds after arbitrary histories, on the implementation
    and the model) whose monitor checks exactly the two consequences: every fair round of a
@@ -40,7 +47,7 @@
 From Coq Require Import Lia Permutation.
 From ChitchatModel Require Import Base SMap Ids Bytes Params NodeState Stream DeltaWire Message Cluster
   FD Chitchat World SMap_lemmas NodeState_lemmas Builder_lemmas Agreement Inv DeltaRefine Compute_lemmas
-  Prefix_lemmas NodeInv Codec_lemmas Emit_lemmas Truth NodeTruth Weak Reach Progress Quiet Potential GExec Converge Rounds.
+  Prefix_lemmas NodeInv Codec_lemmas Emit_lemmas Truth NodeTruth Weak Reach Progress Quiet Potential GExec Converge Rounds Schedules.
 
 Section C01.
   Variable zc : bytes -> option bytes.
@@ -304,6 +311,33 @@ Section C01.
     gpot V g = gpot V g' -> world_same g g'.
   Proof. intros strict V ops g g' Hx Hrun Hr Hb. apply (xrun zc zc_len strict V ops g g' Hx Hrun Hr Hb). Qed.
 
+  (* (x) SCHEDULE PROGRESS: a schedule is any sequence of complete handshakes (each started where its
+         two nodes quarantine nobody, are in one cluster and the responder has room) and noise steps
+         (anything but a join; evaluations only by nodes that quarantine nobody).  If a is behind b at
+         the start and the schedule contains the handshake a -> b, the potential has risen at the end *)
+  Theorem C01_schedule_progress : forall strict V g l g', run zc strict g l g' ->
+    reachable zc strict g -> bounded V g' ->
+    forall a b X, behind g a b X -> (exists e, In (IX e) l /\ x_a e = a /\ x_b e = b) ->
+    gpot V g + 1 <= gpot V g'.
+  Proof. intros strict. exact (run_progress zc zc_len strict). Qed.
+
+  Theorem C01_fair_schedule_progress : forall strict V g l g', run zc strict g l g' -> fair_schedule g l -> unconverged g ->
+    reachable zc strict g -> bounded V g' -> gpot V g + 1 <= gpot V g'.
+  Proof. intros strict. exact (fair_schedule_progress zc zc_len strict). Qed.
+
+  (* (xi) at most (copies held at the end) * (V+1)^2 consecutive fair schedules can each start
+          unconverged — whatever noise they contain *)
+  Theorem C01_unconverged_fair_schedules_bounded : forall strict V g k g', lagging_schedules zc strict g k g' ->
+    reachable zc strict g -> bounded V g' ->
+    N.of_nat k <= nsum (map (fun n => N.of_nat (length (cs_nodes (nd_cs n))) * (V + 1) * (V + 1)) (w_nodes (g_w g'))).
+  Proof. intros strict. exact (unconverged_fair_schedules_bounded zc zc_len strict). Qed.
+
+  (* a liveness evaluation by a node that quarantines nobody (and whose grace period is positive)
+     removes no member *)
+  Theorem C01_quiet_evaluation_removes_nobody : forall now n oracle,
+    grace_sane (cf_fd (nd_cfg n)) -> scheduled now n = [] -> nd_cs (update_nodes_liveness now n oracle) = nd_cs n.
+  Proof. exact eval_harmless. Qed.
+
   Theorem C01_strict_advance_raises_measure : forall V c c',
     frontier_lt c c' -> c_max c <= V -> c_max c' <= V -> frontier_measure V c < frontier_measure V c'.
   Proof. exact frontier_measure_lt. Qed.
@@ -343,6 +377,18 @@ Example C01_fair_round_example :
   exists g0 g1, reachable ex_zc true g0 /\ round_run ex_zc true g0 fr_round g1 /\ fair g0 fr_round /\ unconverged g0 /\
                 quiet_world g0 /\ one_cluster g0 /\ gpot 2 g0 = 4 /\ gpot 2 g1 = 8.
 Proof. apply (fair_round_instance_sound ex_zc true fr_ops fr_round 0 1 (cf_id (ex_cfg x42))). vm_compute. reflexivity. Qed.
+
+(* ---- non-vacuity of (x): the same two nodes (b also deleted a key); the schedule interleaves the two
+        handshakes with a clock advance, an evaluation, a heartbeat, an unanswered SYN, GC passes,
+        the late delivery of that SYN and a local write; potential (V = 4) from 5 to 27 ---- *)
+Definition fs_ops : list gop := [OJoin (ex_cfg x41) []; OJoin (ex_cfg x42) []; OSet 1 [x6b] [x31]; OSet 1 [x6c] [x32]; ODel 1 [x6b]].
+Definition fs_sched : list item :=
+  [IN (OTick 1000); IN (OEval 0 None); IN (OHeartbeat 1); IN (OSyn 1); IX (mkX 0 1 [] [] []); IN (OGc 1); IN (ODeliver 0 3%nat []);
+   IN (OSet 0 [x7a] [x39]); IN (OTick 20); IN (OGc 1); IX (mkX 1 0 [] [] [])].
+Example C01_fair_schedule_example :
+  exists g0 g1, reachable ex_zc true g0 /\ run ex_zc true g0 fs_sched g1 /\ fair_schedule g0 fs_sched /\ unconverged g0 /\
+                gpot 4 g0 = 5 /\ gpot 4 g1 = 27.
+Proof. apply (fair_schedule_instance_sound ex_zc true fs_ops fs_sched 0 1 (cf_id (ex_cfg x42))). vm_compute. reflexivity. Qed.
 
 (* ---- the known class KF-2 (wasted offer), exhibited: without the quiet premise the progress
         statement is false.  Nodes a (0), b (1), X (2), failure detector with a 100 s dead-node grace
@@ -410,3 +456,8 @@ Print Assumptions C01_unconverged_fair_rounds_raise_potential.
 Print Assumptions C01_unconverged_fair_rounds_bounded.
 Print Assumptions C01_unchanged_potential_means_unchanged_frontiers.
 Print Assumptions C01_fair_round_example.
+Print Assumptions C01_schedule_progress.
+Print Assumptions C01_fair_schedule_progress.
+Print Assumptions C01_unconverged_fair_schedules_bounded.
+Print Assumptions C01_quiet_evaluation_removes_nobody.
+Print Assumptions C01_fair_schedule_example.
